@@ -31,6 +31,7 @@ type HarnessRun struct {
 	Stubs    map[string]string
 	Redirect map[string]string // callee -> harness function executed instead
 	Race          bool          // replay under the race detector; a reported data race confirms the violation
+	NativeClock   bool          // native replay: the package's time.Now()/time.Since( are routed through verifSetNow
 	NativePatches []NativePatch // source patches applied by overlay for the native replay only
 	Entry    string
 	Params   map[string]int
@@ -129,6 +130,9 @@ type replayTape struct {
 	APIs     []string       `json:"apis,omitempty"`
 	Patches  []NativePatch  `json:"patches,omitempty"`
 	Race     bool           `json:"race,omitempty"`
+	Clock    bool           `json:"clock,omitempty"` // native replay routes the package's time.Now/time.Since through verifSetNow
+	Decision []int          `json:"decision,omitempty"` // path of the symbolic execution (gosym run -path), for diagnosis
+	Site     string         `json:"site,omitempty"`
 }
 
 type replayOutcome struct {
@@ -200,6 +204,28 @@ func nativeReplay(repo string, tape *replayTape, tapePath string) replayOutcome 
 		dst := filepath.Join(tmp, fmt.Sprintf("patched%d_%s", k, filepath.Base(np.File)))
 		os.WriteFile(dst, []byte(strings.Replace(string(data), np.Old, np.New, 1)), 0o644)
 		ov[src] = dst
+	}
+	if tape.Clock {
+		// the harness fixes the wall clock (verifSetNow): route the package's own clock reads through it
+		matches, _ := filepath.Glob(filepath.Join(pkgDir, "*.go"))
+		for k, src := range matches {
+			if strings.HasSuffix(src, "_test.go") {
+				continue
+			}
+			data, err := os.ReadFile(src)
+			if err != nil {
+				continue
+			}
+			txt := string(data)
+			if !strings.Contains(txt, "time.Now()") && !strings.Contains(txt, "time.Since(") {
+				continue
+			}
+			txt = strings.ReplaceAll(strings.ReplaceAll(txt, "time.Now()", "verifNow()"), "time.Since(", "verifSince(")
+			txt += "\nvar _ = time.Unix\n"
+			dst := filepath.Join(tmp, fmt.Sprintf("clock%d_%s", k, filepath.Base(src)))
+			os.WriteFile(dst, []byte(txt), 0o644)
+			ov[src] = dst
+		}
 	}
 	var tb strings.Builder
 	fmt.Fprintf(&tb, "package %s\n\nimport (\n\t\"os\"\n\t\"testing\"\n)\n\nvar verifEntries = map[string]func(){\n", tape.PkgName)
@@ -309,7 +335,24 @@ func cmdCheck(args []string) int {
 	var results []runResult
 	inconclusive := []string{}
 	engines := map[string]*Engine{}
+	only := os.Getenv("VERIF_ONLY") // development aid: restrict to runs whose name contains this; no evidence is written
 	for _, run := range def.Runs(tier) {
+		if only != "" && !strings.Contains(run.Name, only) {
+			continue
+		}
+		if only != "" && os.Getenv("VERIF_PARAMS") != "" {
+			np := map[string]int{}
+			for k, v := range run.Params {
+				np[k] = v
+			}
+			for _, kv := range strings.Split(os.Getenv("VERIF_PARAMS"), ",") {
+				if i := strings.Index(kv, "="); i > 0 {
+					n, _ := strconv.Atoi(kv[i+1:])
+					np[kv[:i]] = n
+				}
+			}
+			run.Params = np
+		}
 		key := run.Pkg + "|" + strings.Join(run.Files, ",") + "|" + strings.Join(run.SymFiles, ",") + "|" + strings.Join(run.APIs, ",") + fmt.Sprint(run.Redirect)
 		eng := engines[key]
 		if eng == nil {
@@ -412,7 +455,7 @@ func cmdCheck(args []string) int {
 				continue
 			}
 			tape := &replayTape{Property: id, Harness: rr.run.Entry, Pkg: rr.run.Pkg, PkgName: rr.run.PkgName, Files: append(append([]string{}, rr.run.Files...), rr.run.NatFiles...),
-				Params: rr.run.Params, Draws: v.Draws, Expect: v.Label, Kind: v.Kind, Msg: v.Msg, Runs: rr.run.ReplayRuns, APIs: rr.run.APIs, Patches: rr.run.NativePatches, Race: rr.run.Race}
+				Params: rr.run.Params, Draws: v.Draws, Expect: v.Label, Kind: v.Kind, Msg: v.Msg, Runs: rr.run.ReplayRuns, APIs: rr.run.APIs, Patches: rr.run.NativePatches, Race: rr.run.Race, Decision: v.Decision, Site: v.Site, Clock: rr.run.NativeClock}
 			name := fmt.Sprintf("%s-%s-%s.json", id, rr.run.Name, sanitize(v.Label))
 			tapePath := filepath.Join(verifRoot(), "replays", name)
 			data, _ := json.MarshalIndent(tape, "", " ")
@@ -465,7 +508,7 @@ func cmdCheck(args []string) int {
 				break
 			}
 			tape := &replayTape{Property: id, Harness: rr.run.Entry, Pkg: rr.run.Pkg, PkgName: rr.run.PkgName, Files: append(append([]string{}, rr.run.Files...), rr.run.NatFiles...),
-				Params: rr.run.Params, Draws: d, Expect: "done", Kind: "done", APIs: rr.run.APIs, Patches: rr.run.NativePatches}
+				Params: rr.run.Params, Draws: d, Expect: "done", Kind: "done", APIs: rr.run.APIs, Patches: rr.run.NativePatches, Clock: rr.run.NativeClock}
 			tapePath := filepath.Join(verifRoot(), "replays", fmt.Sprintf("%s-%s-witness%d.json", id, rr.run.Name, k))
 			data, _ := json.MarshalIndent(tape, "", " ")
 			os.WriteFile(tapePath, data, 0o644)
@@ -569,7 +612,9 @@ func cmdCheck(args []string) int {
 		Assumptions: def.Assumptions, WallS: time.Since(start).Seconds(), Violations: nViol}
 	os.MkdirAll(filepath.Join(verifRoot(), "evidence"), 0o755)
 	data, _ := json.MarshalIndent(ev, "", " ")
-	os.WriteFile(filepath.Join(verifRoot(), "evidence", id+".json"), data, 0o644)
+	if only == "" {
+		os.WriteFile(filepath.Join(verifRoot(), "evidence", id+".json"), data, 0o644)
+	}
 	fmt.Printf("[%s/%s] exit=%d obligations_discharged=%d paths=%d queries=%d wall=%.1fs\n", id, tier, exit, asserts, paths, queries, time.Since(start).Seconds())
 	return exit
 }
